@@ -23,6 +23,7 @@ Recipe pool_recipe(uint64_t master, uint64_t idx, bool many) {
   r.sig = (int)g.below(6); if (g.chance(0.1)) r.sig = 4;
   r.seed = g.next() % 100000; r.ncomm = (int)g.below(4);
   if (g.chance(0.12) && r.n > 6000) r.cut = 1 + (int)g.below(30);
+  if (r.ch >= 2 && r.ch <= 8 && g.chance(0.15)) r.mute = 1 + (int)g.below((1u << r.ch) - 2);
   return r;
 }
 
